@@ -64,10 +64,28 @@ type faultCase struct {
 	ZeroTimeout bool `json:"zero_timeout,omitempty"`
 	// Address: the form of the address given to Connect (network kinds; see cli.Scenario)
 	Address string `json:"address,omitempty"`
+	// FlushFails (kind serial-flush; faults ioerr*, oversize*): the port's Flush, which the serial client calls before it reports such a
+	// fault, fails too. The call still ends with the retryable client error; which of the two causes it wraps is not judged.
+	FlushFails bool `json:"flush_fails,omitempty"`
 	// Over (fault oversize-frame): the transport delivers a structurally well-formed register reply (consistent byte count,
 	// MBAP length / CRC) that is Over bytes longer than the largest legal ADU of the framing
 	Over int `json:"over,omitempty"`
 }
+
+func flushFails(c faultCase) bool {
+	if !c.FlushFails || c.Kind != cli.SerialFlush {
+		return false
+	}
+	switch c.Fault {
+	case "ioerr", "ioerr-with-bytes", "ioerr-timeout-typed", "oversize", "oversize-frame":
+		return true
+	}
+	return false
+}
+
+// The texts of the library's exported error values as they are when the process starts: the cause an oversize reply or a call on an
+// unconnected client is reported with.
+var tooLongText, notConnectedText = modbus.ErrPacketTooLong.Error(), modbus.ErrClientNotConnected.Error()
 
 // overFrame builds the reply of the oversize-frame fault.
 func overFrame(f spec.Framing, r spec.Req, over int, seed uint64) []byte {
@@ -214,6 +232,7 @@ func prepare(c faultCase) (prep, error) {
 	sc.Stream, sc.Events = stream, ev
 	sc.ExplicitParser = c.ExplicitParser
 	sc.ZeroReadTimeout = c.ZeroTimeout && cli.IsSerial(c.Kind) && c.Fault == "stall"
+	sc.FlushFails = flushFails(c)
 	sc.Address = c.Address
 	sc.WithCause = c.WithCause
 	sc.Prior = c.Prior
@@ -277,6 +296,26 @@ func judge(c faultCase, p prep, o cli.Outcome) harness.Result {
 		return harness.Fail("request call did not return within %v (fault %s after %d reply bytes, earlier call on this client: %q)", cli.HangCeiling, c.Fault, c.Prefix, c.Prior)
 	}
 	desc := fmt.Sprintf("fault %q after %d of %d reply bytes (%s fc%d): ", c.Fault, c.Prefix, len(p.reply), c.Kind, c.Req.FC)
+	// the exported error values are what every client reports oversize replies and unconnected clients with: a call does not change them
+	if a, b := modbus.ErrPacketTooLong.Error(), modbus.ErrClientNotConnected.Error(); a != tooLongText || b != notConnectedText {
+		return harness.Fail(desc+"after the call the exported error values read ErrPacketTooLong=%q ErrClientNotConnected=%q; when the process started they read %q and %q", a, b, tooLongText, notConnectedText)
+	}
+	if flushFails(c) {
+		labels = append(labels, "flush-fails-too")
+		if p.affected {
+			return harness.Result{Excluded: cli.KeyExpectedLen, Labels: append(labels, "known:expected-length")}
+		}
+		var ce *modbus.ClientError
+		switch {
+		case o.Err == nil:
+			return harness.Fail(desc + "(and the port's Flush fails as well) request call reported success")
+		case !cat.IsNilValue(o.Resp):
+			return harness.Fail(desc+"(and the port's Flush fails as well) error %v together with a response", o.Err)
+		case !errors.As(o.Err, &ce):
+			return harness.Fail(desc+"(and the port's Flush fails as well) not reported as *ClientError: %T %v", o.Err, o.Err)
+		}
+		return harness.Result{NonTrivial: true, Labels: labels}
+	}
 	if p.affected {
 		// open expected-length finding: the read loop stops before the fault point; still no panic/hang, and (except for the
 		// fc17 finding, which lists it) no success on the truncated frame
@@ -447,6 +486,8 @@ func genFault(t *rapid.T, kinds []string) faultCase {
 	c.Fault = rapid.SampledFrom(faults).Draw(t, "fault")
 	c.ExplicitParser = !cli.IsSerial(c.Kind) && rapid.IntRange(0, 3).Draw(t, "explicit_parser") == 0
 	c.ZeroTimeout = cli.IsSerial(c.Kind) && c.Fault == "stall" && rapid.IntRange(0, 2).Draw(t, "zero_timeout") == 0
+	c.FlushFails = c.Kind == cli.SerialFlush && rapid.IntRange(0, 2).Draw(t, "flush_fails") == 0
+	c.FlushFails = flushFails(c)
 	if !cli.IsSerial(c.Kind) {
 		c.Address = rapid.SampledFrom(cli.Addresses).Draw(t, "address")
 	}
